@@ -1,5 +1,123 @@
-"""stub"""
+"""C13 — a descriptor string determines the tree (DESIGN.md §4 C13)."""
+from __future__ import annotations
+
+import ast
+import string
+
+from ..core import guards
+from ..core import pyfacts as pf
+from ..core.match import call_arg, txt
 from ..core.source import AnchorMissing
-PROP="C13"
+from .common import DECAY, UTIL, ckey, fn, returns, where
+
+PROP = "C13"
+FILES = [DECAY, UTIL]
+EXPLANATION = (
+    "C13.1 daughters are canonically sorted at every level (the final-state string goes through "
+    "DaughtersDict(...).to_string() = ' '.join(sorted(elements()))); C13.2 three-valued evaluation of format_descriptor: "
+    "top ⇒ decay_pattern, not top ⇒ sub_decay_pattern; to_string starts with top=True on a fresh dictionary of the chain, "
+    "the recursion uses top=False; mother/daughters are bound to the right placeholders; C13.3 the default nested pattern is "
+    "bracket-delimited and both defaults carry exactly the two placeholders.")
+NOT_DECIDED = ["injectivity of the rendering for names that themselves contain parentheses and quotes (depends on the name tables): not applicable",
+               "reading the string back (no parser for descriptors exists in the package)"]
+
+
 def run(ctx, ss):
-    raise AnchorMissing("rules not built yet")
+    from .c10 import c10_3, c10_4
+    from .c05 import _as
+    ctx.guard("C13.1", lambda c, s: _as(c, s, c10_4, "C13.1"), ss)
+    ctx.guard("C13.1", c13_1, ss)
+    ctx.guard("C13.2", c13_2, ss)
+    ctx.guard("C13.2", lambda c, s: _as(c, s, c10_3, "C13.2"), ss)
+    ctx.guard("C13.3", c13_3, ss)
+
+
+def c13_1(ctx, ss):
+    for q in ("DaughtersDict.to_string", "DaughtersDict.to_list"):
+        ff, flow = fn(ss, DECAY, q)
+        r = returns(ff)
+        v = txt(r[0].value) if len(r) == 1 and r[0].value is not None else ""
+        want = "' '.join(sorted(self.elements()))" if q.endswith("to_string") else "sorted(self.elements())"
+        alt = "' '.join(self.to_list())" if q.endswith("to_string") else None
+        ok = v == want or (alt is not None and v == alt)
+        (ctx.holds if ok else ctx.violation)("C13.1", ckey(ff, None, "canonical"), where(ff, ff.node),
+                                              f"{q} = {want}" if ok else f"{q} returns `{v[:80]}`: daughters are no longer listed in one canonical (sorted, with multiplicity) order")
+
+
+def c13_2(ctx, ss):
+    ff, flow = fn(ss, UTIL, "DescriptorFormat.format_descriptor")
+    rets = returns(ff)
+    got = {}
+    for r in rets:
+        v = flow.expand(r.value)
+        conds = [c for c in guards.path_conditions(ff.node, r) if c[0] == "if"]
+
+        def mk(val):
+            def atom(e):
+                if isinstance(e, ast.Name) and e.id == "top":
+                    return val
+                return None
+            return atom
+        for val in (True, False):
+            if guards.reachable_under(conds, mk(val), flow) is not False:
+                # which pattern?
+                vv = guards.simplify(v, mk(val))
+                got.setdefault(val, []).append((r, vv))
+    for val, key in ((True, "decay_pattern"), (False, "sub_decay_pattern")):
+        k = ckey(ff, None, f"top={val}")
+        cands = got.get(val, [])
+        want = f"DescriptorFormat.config['{key}'].format(**{{'mother': mother, 'daughters': daughters}})"
+        if len(cands) == 1 and txt(cands[0][1]) == want:
+            ctx.holds("C13.2", k, where(ff, cands[0][0]), f"top={val} ⇒ config['{key}'].format(mother=mother, daughters=daughters)", 3)
+        else:
+            ctx.violation("C13.2", k, where(ff, ff.node), f"with top={val} the descriptor is `{[txt(x[1])[:120] for x in cands]}`, expected `{want}`")
+    # to_string: fresh dictionary, top=True, single descriptor returned
+    tf, tflow = fn(ss, DECAY, "DecayChain.to_string")
+    calls = [c for c in pf.calls_in(tf.node) if txt(c.func) == "_expand_decay_modes"]
+    ok = len(calls) == 1 and calls[0].args and tflow.text(calls[0].args[0]) == "self.to_dict()" and \
+        (call_arg(calls[0], None, "top") is None or txt(call_arg(calls[0], None, "top")) == "True") and call_arg(calls[0], None, "aliases") is None
+    (ctx.holds if ok else ctx.violation)("C13.2", ckey(tf, None, "entry"), where(tf, tf.node),
+                                          "to_string renders self.to_dict() with the top-level pattern" if ok else "to_string does not render self.to_dict() with top=True")
+    r = returns(tf)
+    okr = len(r) == 1 and tflow.text(r[0].value) == "_expand_decay_modes(self.to_dict(), top=True)[0]"
+    (ctx.holds if okr else ctx.violation)("C13.2", ckey(tf, None, "result"), where(tf, tf.node),
+                                           "to_string returns the single descriptor" if okr else f"to_string returns `{tflow.text(r[0].value)[:80] if r else None}`")
+
+
+def c13_3(ctx, ss):
+    mf = pf.module_facts(ss, UTIL)
+    cf = mf.classes.get("DescriptorFormat")
+    if cf is None or "config" not in cf.class_attrs:
+        raise AnchorMissing("DescriptorFormat.config not found")
+    try:
+        cfg = ast.literal_eval(cf.class_attrs["config"])
+    except Exception as e:
+        raise AnchorMissing(f"DescriptorFormat.config is not a literal: {e}")
+    W = f"src/decaylanguage/{UTIL}:{cf.node.lineno}"
+    if set(cfg) != {"decay_pattern", "sub_decay_pattern"}:
+        ctx.violation("C13.3", f"{UTIL}:DescriptorFormat.config :: keys", W, f"default config has keys {sorted(cfg)}")
+        return
+    for key, pat in cfg.items():
+        ph = {t[1] for t in string.Formatter().parse(pat) if isinstance(t[1], str)}
+        k = f"{UTIL}:DescriptorFormat.config :: {key}"
+        if ph == {"mother", "daughters"}:
+            ctx.holds("C13.3", k + " :: placeholders", W, f"default {key} {pat!r} has exactly {{mother}} and {{daughters}}", 1)
+        else:
+            ctx.violation("C13.3", k + " :: placeholders", W, f"default {key} {pat!r} has placeholders {sorted(ph)}")
+        if pat.index("{mother}") > pat.index("{daughters}") if ph == {"mother", "daughters"} else False:
+            ctx.violation("C13.3", k + " :: order", W, f"default {key} renders the daughters before the mother")
+    sub = cfg["sub_decay_pattern"]
+    pairs = {"(": ")", "[": "]", "<": ">", "{": "}"}
+
+    def delimited(pat):
+        parts = list(string.Formatter().parse(pat))
+        head = parts[0][0] if parts else ""
+        tail = parts[-1][0] if parts and parts[-1][1] is None else ""
+        return bool(head) and head[0] in pairs and tail.endswith(pairs[head[0]])
+    if delimited(sub):
+        ctx.holds("C13.3", f"{UTIL}:DescriptorFormat.config :: brackets", W, f"default nested pattern {sub!r} is delimited by {sub[0]}…{sub[-1]}", 1)
+    else:
+        ctx.violation("C13.3", f"{UTIL}:DescriptorFormat.config :: brackets", W, f"default nested pattern {sub!r} is not bracket-delimited: nesting cannot be read back from the string")
+    top = cfg["decay_pattern"]
+    if delimited(top):
+        ctx.violation("C13.3", f"{UTIL}:DescriptorFormat.config :: top-plain", W, "the default top-level pattern is bracketed like a nested one")
